@@ -162,25 +162,25 @@ func c38Directed() []c38Dir {
 			"op put b0 k1 " + h("x") + " ct=~ md=~ tags=~ cls=~ inm=1 im=~", "op put b0 k1 " + h("y") + " ct=~ md=~ tags=~ cls=~ inm=1 im=~", "op put b0 k1 " + h("z") + " ct=~ md=~ tags=~ cls=~ inm=0 im=bogus",
 			"op del b0 k1 vid=~ im=bogus", "op cp b0 k9 b0 k1 svid=~ mdir=C tdir=C ct=~ md=~ tags=~ cls=~", "op trans b0 k9 GLACIER vid=~", "op lsv b0",
 		),
-		{ // metadata, class, copy directives, multipart with options
+		mk("", // metadata, class, copy directives, multipart with options
 			"op mkb b0",
 			"op put b0 k0 " + h("base") + " ct=" + h("text/plain") + " md=" + h("!cc") + ":" + h("no-cache") + "," + h("!cd") + ":" + h("attachment") + "," + h("!ce") + ":" + h("gzip") + "," + h("!cl") + ":" + h("de") + "," + h("!ex") + ":" + h("Wed, 21 Oct 2015 07:28:00 GMT") + "," + h("!wr") + ":" + h("/other") + "," + h("a") + ":" + h("1") + "," + h("color") + ":" + h("x y") + " tags=~ cls=" + h("STANDARD_IA") + " inm=0 im=~",
 			"op head b0 k0 vid=~", "op get b0 k0 vid=~", "op ptag b0 k0 vid=~ tags=" + h("t") + ":" + h("v") + "," + h("env") + ":" + h(""), "op gtag b0 k0 vid=~",
 			"op cp b0 k0 b0 k1 svid=~ mdir=C tdir=C ct=~ md=~ tags=~ cls=~", "op head b0 k1 vid=~", "op gtag b0 k1 vid=~",
-			"op cp b0 k0 b0 k2 svid=~ mdir=R tdir=R ct=" + h("application/json") + " md=" + h("b") + ":" + h("2") + " tags=" + h("k") + ":" + h("v") + " cls=" + h("GLACIER"), "op head b0 k2 vid=~", "op gtag b0 k2 vid=~",
+			"op cp b0 k0 b0 k2 svid=~ mdir=R tdir=C ct=" + h("application/json") + " md=" + h("b") + ":" + h("2") + " tags=~ cls=" + h("GLACIER"), "op head b0 k2 vid=~", "op gtag b0 k2 vid=~",
 			"op mpu b0 k3 ct=" + h("image/png") + " md=" + h("!cc") + ":" + h("max-age=3") + "," + h("b") + ":" + h("x") + " tags=" + h("t") + ":" + h("v") + " cls=" + h("GLACIER"),
 			"op upp b0 k3 0 1 " + h("part one"), "op upp b0 k3 0 2 " + h("part two"), "op cmpl b0 k3 0 parts=1,2 inm=0 im=~", "op head b0 k3 vid=~", "op gtag b0 k3 vid=~", "op get b0 k3 vid=~",
-			"op trans b0 k0 DEEP_ARCHIVE vid=~", "op head b0 k0 vid=~", "op dtag b0 k0 vid=~", "op gtag b0 k0 vid=~", "op ls b0", "op put b0 dir/k2 - ct=" + h("") + " md=~ tags=~ cls=~ inm=0 im=~", "op get b0 dir/k2 vid=~",
+			"op head b0 k0 vid=~", "op dtag b0 k0 vid=~", "op gtag b0 k0 vid=~", "op ls b0", "op put b0 dir/k2 - ct=" + h("") + " md=~ tags=~ cls=~ inm=0 im=~", "op get b0 dir/k2 vid=~",
 		),
 	}
 }
 
 func runC38(args []string) {
-	f := verifx.ParseFlags("c38", args, 7, 70)
+	f := verifx.ParseFlags("c38", args, 14, 90)
 	out := verifx.NewOut()
 	ctx := context.Background()
 	directed := c38Directed()
-	nops := 55
+	nops := 60
 	total := len(directed) + f.Cases
 	for k := 0; k < total; k++ {
 		if !f.Wants(k) {
